@@ -527,6 +527,9 @@ func TestC19(t *testing.T) {
 		}
 		nE := between(rt, 0, 3, "epics")
 		nT := between(rt, 1, 9, "tasks")
+		if nE > 0 && pct(rt, 10, "notasks") {
+			nT = 0 // epics are rows too: a store of epics only is not an empty store
+		}
 		longBias := pct(rt, 50, "long.titles")
 		titleOf := func(label string) string {
 			if longBias && pct(rt, 50, label+".long") {
@@ -566,6 +569,9 @@ func TestC19(t *testing.T) {
 		for i := range tasks {
 			if strings.Contains(build[nE+i].Stdin, `"doing"`) && pct(rt, 35, "toerror") {
 				build = append(build, Cmd{Args: []string{"--json", "set", fmt.Sprintf("$%d$", nE+i)}, Mode: StdinPipe, Stdin: `{"state":"error"}`})
+			} else if strings.Contains(build[nE+i].Stdin, `"doing"`) && pct(rt, 30, "toblocked") {
+				// blocked by a human while an agent holds it: the claim stays, the state is blocked
+				build = append(build, Cmd{Args: []string{"--json", "set", fmt.Sprintf("$%d$", nE+i)}, Mode: StdinPipe, Stdin: `{"state":"blocked"}`})
 			}
 		}
 		// dependencies
